@@ -2,6 +2,7 @@ import Driver.Util
 import DiskfsModel.Core.Crc
 import DiskfsModel.Model.Iso.Compose
 import DiskfsModel.Model.Iso.SymlinkEnc
+import DiskfsModel.Model.Iso.Svd
 /-! Further ops of the iso9660 model driver (vd-iso): the workspace-to-image composition. -/
 namespace Driver.IsoX
 open Diskfs Diskfs.Iso Driver
@@ -148,11 +149,22 @@ def ptwalk (args : List String) : String :=
   let hit := (idx.filter fun i => i ≥ 2 && ptLookup recs ((chain i).map fun k => (rec' k).name) == (rec' i).loc).length
   s!"wf={if wf then 1 else 0}\tn={n}\thit={hit}"
 
+/-- iso.svd b=hex(2048 bytes) → the fields `decodeSVD` extracts from a supplementary descriptor, whether its
+    escape sequences announce Joliet, and whether `encodeSVD` of them gives the same 2048 bytes again -/
+def svdOp (args : List String) : String :=
+  let b := unDash ((arg args "b").getD "-")
+  match decodeSVD b with
+  | none => "err"
+  | some s =>
+    let p := s.d
+    s!"flags={s.flags.toNat}\tjoliet={if isJolietEsc s.esc then 1 else 0}\tvol={p.volSize}\tset={p.setSize}\tseq={p.seqNo}\tbs={p.blocksize}\tptS={p.ptSize}\tptL={p.ptL}\tptM={p.ptM}\troot={p.root.loc}:{p.root.size}\tre={if encodeSVD s == b then 1 else 0}"
+
 def dispatch (op : String) (args : List String) : Option String :=
   match op with
   | "iso.compose" => some (compose args)
   | "iso.slenc" => some (slenc args)
   | "iso.ptwalk" => some (ptwalk args)
+  | "iso.svd" => some (svdOp args)
   | _ => none
 
 end Driver.IsoX
